@@ -446,6 +446,7 @@ _R6 = [
      "Graph's slot vectors are lengthened only inside the functions that carry the index-type limit test"),
     (("C02",), rules6.index_directed_creation, 2, None, "ensure_node_exists never allocates through the free list (add_node)"),
     (("C04", "C06"), rules6.matrix_cell_bounds, 3, None, "MatrixGraph Edges::next reads a cell only with both coordinates below node_capacity"),
+    (("C05", "C06"), rules6.csr_mirror_enumeration, 2, None, "Csr stores an undirected edge twice and counts it once, so EdgeReferences::next skips the mirrored copy"),
     (("C05",), rules6.list_search_direction, 2, None, "adj::List find_edge / update_edge both pick the first match of a forward scan"),
     (("C06",), rules6.reversed_one_to_one, 2, None, "Reversed's iterators map the inner iterator one to one"),
     (("C09", "C07"), rules6.condensation_simple, 2, None, "condensation uses add_edge only when make_acyclic is false"),
